@@ -49,6 +49,12 @@ def substr (s : Bytes) (start length : Int) : Bytes :=
 /-- `String::compare(s + i, t + j) == 0`: the C strings from there on are equal (strings hold no NUL) -/
 def cstrEq (s : Bytes) (i : Int) (t : Bytes) (j : Int) : Bool := decide (s.drop i.toNat = t.drop j.toNat)
 
+/-- `s.findLast(c)`: pointer to the last occurrence of the byte, or null -/
+def findLast (s : Bytes) (c : Nat) : Option Int :=
+  match splitLast (fun x => x == c) s with
+  | some (d, _, _) => some (d.length : Int)
+  | none => none
+
 /-- `s.resize(n)` for `n ≤ length` -/
 def resize (s : Bytes) (n : Int) : Bytes := s.take n.toNat
 
